@@ -177,7 +177,7 @@ Ltac inv_some :=
 Lemma io_complete_spec : forall s more s' l, io_complete s more = (s', l) ->
   will_close s' = will_close s /\ close_when_flushed s' = close_when_flushed s /\
   connected s' = connected s /\ active s' = active s /\ outlog s' = outlog s /\
-  next_id s' = next_id s /\ bad s' = bad s /\ askers s' = askers s /\
+  next_id s' = next_id s /\ askers s' = askers s /\
   io s' = (if more then IOLoop else IOIdle) /\
   rlock s' = (if more then rlock s else false) /\
   ((exists q, request s = Some q /\ a_completed q = true /\ a_empty q = false /\
@@ -216,11 +216,10 @@ Lemma do_send_spec : forall s w s' l, do_send s w = (s', l) -> forall q, request
   rlock s' = rlock s /\ io s' = io s /\ active s' = active s /\ queued s' = queued s /\
   next_id s' = next_id s /\ askers s' = askers s /\
   outlog s' = outlog s ++ [TInterim (rid q) w] /\ sent_continue s' = true /\
-  request s' = Some (q <| a_completed := false |>) /\
-  bad s' = (if a_completed q then rid q :: bad s else bad s).
+  request s' = Some q /\ l = [LInterim (rid q) w].
 Proof.
   intros s w s' l H q Hq. unfold do_send in H. rewrite Hq in H.
-  destruct (a_completed q); inv_some; simpl; repeat split; auto.
+  inv_some; simpl; repeat split; auto.
 Qed.
 
 (* ---- invariant A is inductive ------------------------------------------ *)
@@ -272,7 +271,7 @@ Lemma after_parse_fields : forall s q1 fresh,
   request s1 = Some q1 /\ requests s1 = requests s /\ sent_continue s1 = sent_continue s /\
   will_close s1 = will_close s /\ close_when_flushed s1 = close_when_flushed s /\
   connected s1 = connected s /\ rlock s1 = rlock s /\ io s1 = io s /\ active s1 = active s /\
-  queued s1 = queued s /\ outlog s1 = outlog s /\ bad s1 = bad s /\
+  queued s1 = queued s /\ outlog s1 = outlog s /\
   next_id s1 = (if fresh then S (next_id s) else next_id s) /\
   askers s1 = (if g_asked q1 then rid q1 :: askers s else askers s).
 Proof.
@@ -318,7 +317,7 @@ Proof.
   pose proof (astep_rid _ _ _ Ha) as Hrid.
   pose proof (after_parse_fields s q1 fresh) as F. cbv zeta in F, Hcase.
   set (s1 := after_parse s q1 fresh) in *.
-  destruct F as (F1 & F2 & F3 & F4 & F5 & F6 & F7 & F8 & F9 & F10 & F11 & F12 & F13 & F14).
+  destruct F as (F1 & F2 & F3 & F4 & F5 & F6 & F7 & F8 & F9 & F10 & F11 & F13 & F14).
   openA HA.
   assert (Hrl : rlock s = true). { apply A4. left. rewrite Eio. discriminate. }
   assert (Hns : ~ In WSend (active s)).
@@ -336,7 +335,7 @@ Proof.
     + rewrite Hrl. split; auto. intros _. left. discriminate.
     + intros m _. split; [|eauto]. destruct (requests s); [reflexivity|discriminate].
   - pose proof (io_complete_spec _ _ _ _ Hc) as S.
-    destruct S as (S1 & S2 & S3 & S4 & S5 & S6 & S7 & S8 & S9 & S10 & S11).
+    destruct S as (S1 & S2 & S3 & S4 & S5 & S6 & S8 & S9 & S10 & S11).
     assert (Hlock' : rlock s' = true <-> io s' <> IOIdle \/ In WSend (active s')).
     { rewrite S9, S10, S4, F9, F7. destruct more.
       - rewrite Hrl. split; auto. intros _. left. discriminate.
@@ -388,7 +387,7 @@ Proof.
   pose proof (do_send_spec _ _ _ _ Ed q Eq) as D.
   destruct D as (D1 & D2 & D3 & D4 & D5 & D6 & D7 & D8 & D9 & D10 & D11 & D12 & D13 & D14).
   pose proof (io_complete_spec _ _ _ _ Ec) as S.
-  destruct S as (S1 & S2 & S3 & S4 & S5 & S6 & S7 & S8 & S9 & S10 & S11).
+  destruct S as (S1 & S2 & S3 & S4 & S5 & S6 & S8 & S9 & S10 & S11).
   assert (Hrl : rlock s = true). { apply A4. left. rewrite Eio. discriminate. }
   assert (Hns : ~ In WSend (active s)).
   { intros Hin. specialize (A2 _ Hin). simpl in A2. destruct A2 as (_ & _ & A2 & _). congruence. }
@@ -407,8 +406,19 @@ Proof.
   assert (Hios : forall m, io s' = IOSend m -> requests s' = [] /\ exists q, request s' = Some q).
   { intros m. rewrite S9. destruct more; discriminate. }
   destruct S11 as [(q' & Sq & Sc & Se & Sr & Ssc & Srs & Sqd)|[(q' & Sq & Sc & Se & Sr & Ssc & Srs & Sqd)|(Sc & Sr & Ssc & Srs & Sqd)]].
-  - rewrite D13 in Sq. inv_some. simpl in Sc. discriminate.
-  - rewrite D13 in Sq. inv_some. simpl in Sc. discriminate.
+  - (* the request was complete at the end of its header block: queued now *)
+    rewrite D13 in Sq. inv_some. rewrite D1, Ers in Srs, Sqd. simpl in Srs, Sqd.
+    constructor; auto.
+    + rewrite S4, D7, Sqd, D8, Hact, Hqd. simpl. lia.
+    + rewrite S4, D7, Hact. simpl. tauto.
+    + rewrite Srs. discriminate.
+    + rewrite Sr, Srs, S6, D9. simpl. split; [assumption|exact I].
+  - rewrite D13 in Sq. inv_some. rewrite D1, Ers in Srs.
+    constructor; auto.
+    + rewrite S4, D7, Sqd, D8. assumption.
+    + rewrite S4, D7, Hact. simpl. tauto.
+    + rewrite Sqd, D8, Hqd. lia.
+    + rewrite Sr, Srs, S6, D9. simpl. exact I.
   - constructor; auto.
     + rewrite S4, D7, Sqd, D8. assumption.
     + rewrite S4, D7, Hact. simpl. tauto.
